@@ -62,9 +62,19 @@ fn rand_batch<T: Tab + Send>(op: &Value, out: &mut Vec<Value>) {
         }
         draw::<T>(n)
     };
+    let serial = op.get("serial").and_then(|v| v.as_bool()).unwrap_or(false);
     let results: Vec<Vec<Value>> = if threads <= 1 {
         warm_up(&warm);
         vec![(0..count).map(|_| draw_i()).collect()]
+    } else if serial {
+        // threads that live one after the other: each is created after the previous one has finished and been joined
+        (0..threads)
+            .map(|_| {
+                std::thread::spawn(move || (0..count).map(|_| draw_i()).collect::<Vec<Value>>())
+                    .join()
+                    .expect("HARNESS: thread")
+            })
+            .collect()
     } else {
         let barrier = std::sync::Arc::new(std::sync::Barrier::new(threads));
         let w_index = std::sync::atomic::AtomicUsize::new(0);
